@@ -538,6 +538,13 @@ def run_check(plugin, pid, seed, tier, args, scratch, t_start):
         stats['sanitizer_pass'] = sinfo
         failures += sfails
         log('[%s] C sanitizer pass: %s' % (pid, json.dumps(sinfo)[:300]))
+        try:    # measured, not assumed: which anchored lines did the cases of this run execute at all?
+            import coverage as covmod
+            cv = covmod.measure(pid, tier, seed, args.jobs, cases=cases[:getattr(plugin, 'COVERAGE_MAX_CASES', 3000)])
+            stats['anchored_line_coverage'] = cv
+            log('[%s] C anchored line coverage of the generated cases: %s' % (pid, json.dumps({k: v for k, v in cv.items() if k != 'files'})))
+        except Exception as e:
+            stats['anchored_line_coverage'] = {'error': repr(e)}
     # focused search around disagreeing inputs
     if (disagreements or not A['ok']) and hasattr(plugin, 'focused_cases') and not failures:
         extra = plugin.focused_cases(rng.fork(), [cases[d['case']] for d in disagreements[:20]], tier)
